@@ -14,13 +14,16 @@ def run(ctx):
     n = 600 if not ctx.thorough else 12000
     results = [generic.engine_run(ctx, "queue", ["--seed", str(ctx.seed), "--n", str(n)], "main")]
     results.append(generic.engine_run(ctx, "queue", ["--exhaustive", "3" if not ctx.thorough else "5"], "exhaustive"))
+    # the queue's own thread-safety: concurrent histories on the real queue vs. a sequential keyed min-priority map
+    results.append(generic.engine_run(ctx, "queuelin", ["--seed", str(ctx.seed), "--n", "400" if not ctx.thorough else "6000"], "lin"))
     if ctx.thorough:
         for k in range(1, 4):
             results.append(generic.engine_run(ctx, "queue", ["--seed", str(ctx.seed * 1000 + k), "--n", str(n // 3), "--len", "200"], "extra%d" % k))
     bad = generic.proof_cov(ctx, extra_trusted=["container/heap is modelled (its ~40 lines are transcribed in Queue/Heap.lean) and compared, not verified",
-                                                 "thread-safety of the queue's own mutex is outside the model (race detector in the thorough tier)"])
+                                                 "thread-safety of the queue's own mutex is outside the Lean model: qh queuelin records concurrent histories on the real queue and searches for a sequential order on the abstract map (sampled interleavings, not a proof)"])
     generic.judge(ctx, results, bad, "queue",
                   widen=lambda: (generic.engine_run(ctx, "queue", ["--seed", str(ctx.seed * 7919 + k), "--n", str(n * 2), "--len", "120"], "search%d" % k) for k in range(1, 4)))
+    # (queuelin is always part of the main run, so a broken tie has already been searched concurrently as well)
     generic.fill_coverage(ctx, results, RULE)
     return common.finish(ctx)
 
